@@ -47,3 +47,24 @@ SPEC_ENTRY = {'title': "Every published buffer chain is well-formed and describe
               '  assert (Hok : bufs_ok (tag_bufs [mkBuf 1 8 100] [mkBuf 2 16 200])) by (repeat constructor; vm_compute; (discriminate || reflexivity)).\n'
               '  pose proof (NR_add _ _ _ _ _ _ _ _ HR Hok E) as HR1. vm_compute in E. inversion E; subst. repeat split; try reflexivity. exact HR1.\n'
               'Qed.']}
+
+# ---- the monitors evaluated on the IMPLEMENTATION's observations, tied to the statements they stand for (Proofs/QueueMonProofs.v):
+# ---- "meaning" = what a true verdict implies, for any input list; "holds_of_model" = no false alarm on code that behaves like the model
+SPEC_ENTRY['imports'] += [m for m in ['Extract.QueueMon', 'Proofs.QueueMonProofs'] if m not in SPEC_ENTRY['imports']]
+SPEC_ENTRY['theorems'] += [
+  ('C01_monitor_150_meaning', 'Proofs/QueueMonProofs.v', 'mon_publish_sound', 'monitor 150, a true verdict on a line [N; indirect; old_idx; tok; ring_val; aidx_now; n_in; n_out; (addr,len)*; n_others; others*; is_ind; bad; hflags; hlen; m; (idx,addr,len,flags,next)*m] means: slot holds the token, index +1 mod 2^16, token < size, as many elements as buffers with exactly their address / length, readable before writable, a well-linked direct chain inside the table (only without indirect or for one buffer) or a well-formed indirect table (only with indirect and more than one buffer), descriptors pairwise distinct and in no other outstanding chain'),
+  ('C01_monitor_150_accepts_only_such_lines', 'Proofs/QueueMonProofs.v', 'mon_publish_decodes', 'every list monitor 150 accepts has that layout with consistent counts: the hypotheses of C01_monitor_150_meaning lose nothing'),
+  ('C01_monitor_150_holds_of_model', 'Proofs/QueueMonProofs.v', 'mon_publish_complete', 'monitor 150 is true of the line built from the device-visible state of the model itself (ring slot, visible index, raw walk of descriptor table / indirect table as Rig::device_walk does it) after every successful add in every reachable state, direct and indirect: no false alarm on code that behaves like the model'),
+]
+SPEC_ENTRY['examples'] += [
+ '(* the line of monitor 150 built from the model state after a concrete add, direct and indirect: the layout of scen/qrig.rs Rig::add *)\n'
+ 'Example C01_monitor_150_nonvacuous_direct : exists s1 evs, add (qnew 4 false false) [mkBuf 1 8 100] [mkBuf 2 16 200] 0 = (Ok 0, s1, evs)\n'
+ '  /\\ enc_publish (qnew 4 false false) s1 [] [mkBuf 1 8 100] [mkBuf 2 16 200] 0 (fun _ => None)\n'
+ '     = [4; 0; 0; 0; 0; 1; 1; 1; 100; 8; 200; 16; 0; 0; 0; 0; 0; 2; 0; 100; 8; 1; 1; 1; 200; 16; 2; 2]\n'
+ '  /\\ mon_publish [4; 0; 0; 0; 0; 1; 1; 1; 100; 8; 200; 16; 0; 0; 0; 0; 0; 2; 0; 100; 8; 1; 1; 1; 200; 16; 2; 2] = true.\n'
+ 'Proof. eexists; eexists; vm_compute; repeat split; reflexivity. Qed.',
+ 'Example C01_monitor_150_nonvacuous_indirect : exists s1 evs, add (qnew 4 true false) [mkBuf 1 8 100] [mkBuf 2 16 200] 900 = (Ok 0, s1, evs)\n'
+ '  /\\ enc_publish (qnew 4 true false) s1 [] [mkBuf 1 8 100] [mkBuf 2 16 200] 0 (fun a => if a =? 900 then nthN (q_ind s1) 0 None else None)\n'
+ '     = [4; 1; 0; 0; 0; 1; 1; 1; 100; 8; 200; 16; 0; 1; 0; 4; 32; 2; 0; 100; 8; 1; 1; 1; 200; 16; 2; 2]\n'
+ '  /\\ mon_publish [4; 1; 0; 0; 0; 1; 1; 1; 100; 8; 200; 16; 0; 1; 0; 4; 32; 2; 0; 100; 8; 1; 1; 1; 200; 16; 2; 2] = true.\n'
+ 'Proof. eexists; eexists; vm_compute; repeat split; reflexivity. Qed.']
